@@ -464,6 +464,8 @@ pub fn project(runs: &[Run]) -> (Vec<String>, Vec<i64>, FileStats) {
         let mut began = false;
         let mut in_flight = false;
         let mut have_draw = false;
+        let mut have_eval = false;
+        let mut prop_vec: Vec<f64> = vec![];
         let mut base: Vec<f64> = run.start_vec.clone();
         let mut cur: f64 = std::f64::NAN; // optimiser's belief
         let mut held: f64 = std::f64::NAN; // observed score of the state that is held
@@ -485,6 +487,7 @@ pub fn project(runs: &[Run]) -> (Vec<String>, Vec<i64>, FileStats) {
                         }
                     } else if in_flight {
                         new_score = *s;
+                        have_eval = true;
                         have_draw = false;
                         if s.is_none() {
                             st.undefined += 1;
@@ -513,6 +516,9 @@ pub fn project(runs: &[Run]) -> (Vec<String>, Vec<i64>, FileStats) {
                         ..
                     } => {
                         in_flight = true;
+                        have_eval = false;
+                        have_draw = false;
+                        prop_vec = vec.clone();
                         let i = changed_coord(&base, vec, *index);
                         if before.to_bits() != after.to_bits()
                             && (i - 1 < run.bounds.len())
@@ -583,6 +589,23 @@ pub fn project(runs: &[Run]) -> (Vec<String>, Vec<i64>, FileStats) {
                         kt,
                         ..
                     } => {
+                        // A proposal that was clamped back onto the very same vector may be
+                        // decided without a call of score(): the state is the held state, its
+                        // score (a function of the state) is the held score.
+                        if !have_eval
+                            && in_flight
+                            && prop_vec.len() == base.len()
+                            && prop_vec.iter().zip(base.iter()).all(|(a, b)| a.to_bits() == b.to_bits())
+                            && held.is_finite()
+                        {
+                            new_score = Some(held);
+                            have_eval = true;
+                            lines.push(
+                                json!({"ev": "eval", "val": p.toks(&prop_vec), "score": p.rank(Some(held)),
+                                       "out": outside(&prop_vec, &run.bounds)})
+                                .to_string(),
+                            );
+                        }
                         if !have_draw {
                             lines.push(
                                 json!({"ev": "draw", "metro": "unsure", "u": 0, "p": 0})
